@@ -6,11 +6,17 @@ use super::wake_queue::*;
 use super::desync_scheduler::*;
 
 use futures::prelude::*;
+#[cfg(not(desync_verif))]
 use futures::channel::oneshot;
+#[cfg(desync_verif)]
+use crate::vsched::oneshot;
 use futures::task;
 
 use std::mem;
+#[cfg(not(desync_verif))]
 use std::sync::*;
+#[cfg(desync_verif)]
+use crate::vsched::sync::*;
 use std::pin::{Pin};
 
 ///
